@@ -168,8 +168,8 @@ v("c15-unfix-regex-anchor", "C15", "REGEX-ANCHOR", U + "value_to_literal.py",
 v("c15-coercer-drops-oneof-null", "C15", "SIBLING-ATOMS", U + "coerce_input_value.py",
   "            if coerced_dict[keys[0]] is None:\n                # Invalid: value not non-null, intentionally return no value.\n                return Undefined\n", "")
 v("c15-validator-drops-unknown-field", "C15", "SIBLING-ATOMS", U + "validate_input_value.py",
-  "            if field_name not in field_defs:\n                suggestion = (\n                    \"\"\n                    if hide_suggestions\n                    else did_you_mean(suggestion_list(field_name, list(field_defs)))\n                )\n                report_invalid_value(",
-  "            if False:\n                suggestion = (\n                    \"\"\n                    if hide_suggestions\n                    else did_you_mean(suggestion_list(field_name, list(field_defs)))\n                )\n                report_invalid_value(")
+  "            if field_name not in field_defs:\n                suggestion = (\n                    \"\"\n                    if hide_suggestions or not isinstance(field_name, str)\n",
+  "            if False:\n                suggestion = (\n                    \"\"\n                    if hide_suggestions or not isinstance(field_name, str)\n")
 v("c15-literal-coercer-leaf-unwrapped", "C15", "SIBLING-ATOMS", U + "coerce_input_value.py",
   "    except Exception:  # noqa: BLE001\n        # Invalid: ignore error and intentionally return no value.\n        return Undefined\n\n\ndef coerce_default_value(",
   "    except GraphQLError:  # noqa: BLE001\n        # Invalid: ignore error and intentionally return no value.\n        return Undefined\n\n\ndef coerce_default_value(")
@@ -600,3 +600,12 @@ v("c08-union-members-newline-pipe", "C08", "LIST-SEPARATORS", L + "printer.py",
   "                wrap(\"= \", join(node.types, \" | \")),\n            ),\n            \" \",\n        )\n\n    @staticmethod\n    def leave_enum_type_definition",
   "                wrap(\"= \", join(node.types, \"\\n  | \")),\n            ),\n            \" \",\n        )\n\n    @staticmethod\n    def leave_enum_type_definition",
   expect="silent")
+
+# -- round 4: C15 ------------------------------------------------------------------------------------------
+v("c15-enum-accepts-python-enum-members", "C15", "ENUM-INPUT-CLASSES", T + "definition.py",
+  "        \"\"\"Coerce an enum input value.\"\"\"\n        if isinstance(input_value, str):\n",
+  "        \"\"\"Coerce an enum input value.\"\"\"\n        if isinstance(input_value, Enum):\n            input_value = input_value.name\n        if isinstance(input_value, str):\n")
+v("c15-literal-rule-shortcut", "C15", "LITERAL-RULE-DELEGATES", V + "rules/values_of_correct_type.py",
+  "        if input_type:\n\n            def on_error", "        if input_type:\n            if isinstance(node, BooleanValueNode) and str(input_type) == \"Boolean\":\n                return SKIP\n\n            def on_error")
+v("c15-literal-rule-early-return-untyped", "C15", "LITERAL-RULE-DELEGATES", V + "rules/values_of_correct_type.py",
+  "        if input_type:\n\n            def on_error", "        if not input_type:\n            return SKIP\n        if input_type:\n\n            def on_error", expect="silent")
